@@ -442,7 +442,7 @@ int ref_link_of(const refdec_t *r, int64_t pos){
 #define MAXV 12
 static struct {
   long id; long evals; int nb; char b[MAXB][96]; int nv; char vprop[MAXV][8]; char vkey[MAXV][160]; char vdet[MAXV][400];
-  int nc; char cn[48][40]; long cv[48]; char sample[900]; long dropped_v;
+  int nc; char cn[48][64]; long cv[48]; char sample[900]; long dropped_v;
   int nm; char mn[40][56]; double mlo[40], mhi[40];
 } R;
 static void jesc(const char *s){
